@@ -14,6 +14,10 @@ pub mod c02;
 pub mod c03;
 pub mod c04;
 pub mod c05;
+pub mod c07;
+pub mod c08;
+pub mod c09;
+pub mod reply;
 pub mod c10;
 pub mod c16;
 pub mod docs;
@@ -289,6 +293,9 @@ pub fn lookup(prop: &str) -> Option<PropFn> {
         "C03" => Some(c03::run),
         "C04" => Some(c04::run),
         "C05" => Some(c05::run),
+        "C07" => Some(c07::run),
+        "C08" => Some(c08::run),
+        "C09" => Some(c09::run),
         "C10" => Some(c10::run),
         "C16" => Some(c16::run),
         _ => None,
